@@ -38,9 +38,9 @@ func runC09(c *Ctx) {
 
 	fn := P.FnOpt("ristretto", "defaultPolicy", "Add")
 	var tb *TB
-	var scanIf *ssa.If      // the arg-min comparison
-	var estCall *ssa.Call   // Estimate(pair.key)
-	var minHits *ssa.Phi    // running minimum
+	var scanIf *ssa.If    // the arg-min comparison
+	var estCall *ssa.Call // Estimate(pair.key)
+	var minHits *ssa.Phi  // running minimum
 	var minKey, minCost, minID ssa.Value
 	var sample ssa.Value    // the slice scanned
 	var hdr *ssa.BasicBlock // inner loop header
